@@ -79,7 +79,12 @@ SHARED = ['g:sh1', 'g:sh2', 'g:sh3', 'f:sh']
 # LocalOut; flat and nested channel lists), K2A for non-audio inputs of
 # delays, the info units behind SoundIn, the Latch/Impulse of Env.circle
 ZERO = ['g:zout', 'g:zrep', 'g:zx', 'g:zall', 'f:zero']
-ALL_DEFS = GOOD + SMALL + FAIL + FAIL_MORE + SHARED + ZERO
+# witnesses for objects a definition hands out (sd.metadata, sd.variants,
+# desc.metadata ...): built WITHOUT variants and metadata, with parameters
+# that have no default (a leaked 'specs' entry would supply one) and controls
+# a leaked variant could name.  g:s1, g:sh3 and g:zout are witnesses too.
+NODEF = ['g:nd', 'g:nd2']
+ALL_DEFS = GOOD + SMALL + FAIL + FAIL_MORE + SHARED + ZERO + NODEF
 # other public routes that build a definition or read one back (every one of
 # them is 'earlier use of the library' for what follows)
 LIBUSE = ['add:g:ctl', 'deco:g:sh1', 'deco:g:sh3', 'store:g:sh1', 'late:g:p0']
@@ -89,11 +94,16 @@ OPS2 = SHARED + LIBUSE + ['g:wrapfft', 'f:fn', 'f:type', 'desc:g:wrapfft',
                           'bare']
 # (b) third alphabet: implicit helper units x failing builds x read-back
 OPS3 = ZERO + ['desc:g:zall', 'deco:g:zout', 'g:ctl', 'f:fn', 'bare']
+# (b) fourth alphabet: a user writes to what built definitions hand out, then
+# builds definitions without variants / metadata
+OPS4 = ['touch:g:s1', 'touch:g:nd', 'hook:g:nd2', 'touchsys', 'g:nd', 'g:nd2',
+        'g:s1', 'g:sh3', 'g:zout', 'f:fn']
 # (a) definitions that are built repeatedly on their own
-REP_DEFS = GOOD + SMALL + ['g:sh1', 'g:sh2', 'g:sh3'] + ZERO
+REP_DEFS = GOOD + SMALL + ['g:sh1', 'g:sh2', 'g:sh3'] + ZERO + NODEF
 # census items that are operations (the definition built in them is compared)
 CENSUS_OPS = LIBUSE + ['add:g:sh2', 'deco:g:ctl', 'deco:g:s1',
-                       'desc:g:wrapfft', 'deco:g:zout', 'desc:g:zall']
+                       'desc:g:wrapfft', 'deco:g:zout', 'desc:g:zall',
+                       'touch:g:s1', 'touch:g:nd', 'hook:g:nd2', 'touchsys']
 
 _L = None
 
@@ -338,6 +348,19 @@ def _def_table(key, m):
                 m.io.LocalOut.ar([s * 0])
                 raise ValueError('the graph function fails')
         return m.SynthDef('gz', graph)
+    if key == 'g:nd':
+        def graph(freq=None, amp=None, cut=None):
+            s = m.osc.SinOsc.ar(freq) * amp
+            m.io.Out.ar(0, m.flt.LPF.ar(s, cut + 100))
+        return m.SynthDef('g', graph)
+    if key == 'g:nd2':
+        def inner(cut=None, q=None):
+            return m.flt.LPF.ar(m.noise.WhiteNoise.ar(), cut + 100) * q
+
+        def graph(freq=None, pos=(0.25, 0.5)):
+            m.io.Out.ar(0, m.pan.Pan2.ar(
+                m.osc.SinOsc.ar(freq) + m.SynthDef.wrap(inner), pos))
+        return m.SynthDef('g', graph, rates=[0.1])
     if key == 'f:type':
         # a callable that is not a function: refused after the context is set
         import functools
@@ -421,6 +444,71 @@ def _lib_use(m, op, sd, data):
         return f'{route}-raises-{type(e).__name__}'
 
 
+def _leak_specs():
+    from sc3.synth.spec import ControlSpec
+    return {n: ControlSpec(1, 20000, 'exp', default=d) for n, d in (
+        ('freq', 777), ('amp', 0.7), ('cut', 7000), ('q', 0.7), ('out', 7),
+        ('pos', 0.7), ('mix', 0.7), ('lagged', 0.7), ('gate', 0.7))}
+
+
+_LEAK_VARIANTS = {'freq': 111, 'amp': 0.11, 'cut': 1111, 'out': 1}
+
+
+def _touch(sd, desc=None):
+    """Use the objects a definition (and its description) hands out the way
+    a user may: in-place writes.  What that means for `sd` itself is the
+    user's business; no other definition may notice."""
+    for md in (sd.metadata, getattr(desc, 'metadata', None)):
+        if isinstance(md, dict):
+            md.setdefault('specs', {}).update(_leak_specs())
+            md['touched'] = True
+    if isinstance(sd.variants, dict):
+        # one control per variant, 'freq' (which every witness has) first:
+        # the writer stops at the first variant it cannot use
+        for cname, value in _LEAK_VARIANTS.items():
+            sd.variants['l' + cname] = {cname: value}
+    if desc is not None:
+        for name in ('controls', 'control_names', 'inputs', 'outputs',
+                     'constants'):
+            lst = getattr(desc, name, None)
+            if isinstance(lst, list):
+                lst.reverse()
+                lst.append(lst[0] if lst else None)
+        if isinstance(desc.control_dict, dict):
+            desc.control_dict['leak'] = None
+
+
+def _touch_route(m, op, sd):
+    route = op.split(':', 1)[0]
+    from sc3.synth.synthdesc import SynthDescLib
+    try:
+        if route == 'touch':
+            _touch(sd, m.SynthDesc.new_from(sd, True))
+            sd.add()
+            _touch(sd, SynthDescLib.get_lib('default').at(sd.name))
+        else:
+            import shutil
+            import tempfile
+            d = tempfile.mkdtemp(prefix='c20-hook-')
+            saved = m.SynthDesc.__dict__['populate_metadata_func']
+            try:
+                m.SynthDesc.populate_metadata_func = \
+                    lambda desc: _touch(desc.sdef or sd, desc)
+                sd.store(dir=d)
+            finally:
+                m.SynthDesc.populate_metadata_func = saved
+                shutil.rmtree(d, ignore_errors=True)
+        return route + '-ok'
+    except Exception as e:
+        return f'{route}-raises-{type(e).__name__}'
+
+
+def _touch_system_defs():
+    from sc3.synth.systemdefs import SystemDefs
+    for sd in SystemDefs.synthdefs:
+        _touch(sd)
+
+
 def run_op(op, keep=None):
     """Perform one operation on the real library -> outcome (plain data).
     `keep` (a list) receives the created objects so that they stay alive."""
@@ -431,6 +519,9 @@ def run_op(op, keep=None):
             if keep is not None:
                 keep.append(units)
             return ['bare', all(u._synthdef is None for u in units)]
+        if op == 'touchsys':
+            _touch_system_defs()
+            return ['bare', True]
         key = build_ref.ref_key(op)
         route = op.split(':', 1)[0]
         if route == 'deco':
@@ -450,6 +541,10 @@ def run_op(op, keep=None):
                 run_op(other, keep)
         data = gp.sd_bytes(sd)
         out = ['ok', _sha(data)]
+        if route in ('touch', 'hook'):
+            # (the touched definition is not written again: what the writes
+            # mean for it is not C20's business)
+            out.append(_touch_route(m, op, sd))
         if route in ('desc', 'add', 'store'):
             out.append(_lib_use(m, op, sd, data))
             if gp.sd_bytes(sd) != data:
@@ -708,7 +803,8 @@ def hist_nontrivial(h):
     if len(h) < 2:
         return False
     last = h[-1]
-    return any(o.startswith(('f:', 'desc:', 'late:') + build_ref.LIB_ROUTES)
+    return any(o.startswith(('f:', 'desc:', 'late:', 'touch') +
+                            build_ref.LIB_ROUTES + build_ref.TOUCH_ROUTES)
                or (o.startswith('g:') and o != last) for o in h[:-1])
 
 
@@ -1373,6 +1469,8 @@ def _census(ctx, tagbase, slice_of, cands, refs):
     base = results[0]
     items = len(base)
     for k in ALL_DEFS + CENSUS_OPS:
+        if build_ref.ref_key(k) is None:
+            continue            # builds nothing (touchsys)
         a, b = refs[build_ref.ref_key(k)], base['d:' + k][:2]
         if a[0] != b[0] or (a[0] == 'ok' and a[1] != b[1]):
             kind = 'census-differs-from-pristine-reference'
@@ -1501,12 +1599,13 @@ def main(ctx):
 
     # (b) histories
     ops = GOOD + FAIL + DESC + ['bare']
-    plans = [(ops, 4), (OPS2, 3), (OPS3, 3)]
+    plans = [(ops, 4), (OPS2, 3), (OPS3, 3), (OPS4, 3)]
     if not quick:
         plans.append((ops + FAIL_MORE + SMALL, 3))
         plans.append((OPS2, 4))
         plans.append((OPS3, 4))
-        plans.append((sorted(set(ops + OPS2 + OPS3)), 3))
+        plans.append((OPS4, 4))
+        plans.append((sorted(set(ops + OPS2 + OPS3 + OPS4)), 3))
         plans.append((['g:p0', 'g:ctl', 'f:fn', 'f:rate', 'f:name', 'f:intr',
                        'desc:g:ctl', 'desc:g:ctl:bad', 'bare'], 5))
     for opl, depth in plans:
@@ -1541,7 +1640,7 @@ def main(ctx):
                   f'alphabet ({len(opl)} operations), <= {mp} preemptions',
                   cands)
     ctx.extra['scenarios'] = nscn
-    ctx.extra['operations'] = sorted(set(ops + OPS2 + OPS3))
+    ctx.extra['operations'] = sorted(set(ops + OPS2 + OPS3 + OPS4))
     ctx.extra['exhaustive_bounds'] = [b for b in ctx.bounds
                                       if 'not exhaustive' not in b]
 
